@@ -241,5 +241,6 @@ def run(col, configs, tier):
         guarded_soft(col, X2.rule_take_n_window_size, facts)
         guarded_soft(col, X2.rule_sign_in_accumulation, facts)
         guarded_soft(col, X2.rule_suffix_step, facts)
+        guarded_soft(col, X2.rule_sign_needs_digit, facts)
         from rules import sep as SEP4
         guarded(col, SEP4.rule_take_n_twins, facts)
